@@ -1222,3 +1222,266 @@ func init() {
 			return obs
 		}})
 }
+
+// SCHEMA.required-key-looked-up — C14 ("a validator accepts exactly the values its
+// declaration describes"): s:has-key REQUIRES the key.  Whether a type list was
+// given or not, the validator it builds answers `valid` only after it has asked
+// the map for the key — the lookup is the presence check.  A shortcut in front of
+// it ("no type list, nothing to check about the value") accepts maps without the
+// key; s:may-have-key may take that shortcut, s:has-key may not.
+func init() {
+	register(&Rule{ID: "SCHEMA.required-key-looked-up", Floor: 1,
+		Doc: "in the validator that s:has-key builds (the closure of the implementation registered under the name has-key) every return that does not construct an error is reached only through a block that calls Map.Get on the input — whatever the constraint's other arguments are (an omitted type list): the lookup is the presence check, so no path declares a map valid without having asked it for the required key (s:may-have-key, whose key is optional, is free to skip the lookup)",
+		Run: func(c *Ctx) []Obligation {
+			const rid = "SCHEMA.required-key-looked-up"
+			ent := c.RegistryByName(schemaPkg, "has-key")
+			if ent == nil {
+				return []Obligation{anchorMissing(rid, "the registered builtin s:has-key")}
+			}
+			body, u, _, ok := c.BodyOf(*ent)
+			if !ok || u.Decl == nil {
+				return []Obligation{anchorMissing(rid, "the implementation of s:has-key")}
+			}
+			info := u.Pkg.TypesInfo
+			var obs []Obligation
+			ord := &ordinal{}
+			nlits := 0
+			ast.Inspect(body, func(n ast.Node) bool {
+				lit, isLit := n.(*ast.FuncLit)
+				if !isLit {
+					return true
+				}
+				// the validator closure: a literal that looks a key up in a map (or should)
+				sig, _ := info.TypeOf(lit).(*types.Signature)
+				if sig == nil || sig.Results().Len() != 1 || !isLValPtr(c, sig.Results().At(0).Type()) {
+					return true
+				}
+				nlits++
+				fc := c.cfgOf(u, lit)
+				gets := fc.blocksWith(func(m ast.Node) bool {
+					for _, ce := range callsIn(m, false) {
+						if fn := Callee(info, ce); fn != nil && fn.Name() == "Get" && fn.Pkg() != nil && rel(fn.Pkg().Path()) == "lisp" {
+							return true
+						}
+					}
+					return false
+				})
+				for _, b := range fc.G.Blocks {
+					if !fc.Live(b) {
+						continue
+					}
+					for _, m := range b.Nodes {
+						rs, isRet := m.(*ast.ReturnStmt)
+						if !isRet || len(rs.Results) != 1 || c.isErrorValueCall(info, rs.Results[0], 0) {
+							continue
+						}
+						if identObj(info, rs.Results[0]) != nil {
+							continue // an error value handed on (`return lerr`)
+						}
+						construct := ord.next("success return")
+						if gets[b] || !fc.reachableFromAvoidingBlocks(fc.G.Blocks[0], b, gets) {
+							obs = append(obs, mkOb(c, rid, u, construct, rs, Proved, "reached only after the input map was asked for the key", true))
+						} else {
+							obs = append(obs, mkOb(c, rid, u, construct, rs, Violated, "the validator of s:has-key can answer `valid` on a path that never looks the key up: (s:validate (s:make-validator \"T\" s:sorted-map (s:has-key \"id\")) (sorted-map)) passes although the required key is absent", true))
+						}
+					}
+				}
+				return false
+			})
+			if nlits == 0 {
+				obs = append(obs, mkOb(c, rid, u, "validator closure", u.Decl, Undecided, "no validator closure found in the implementation of s:has-key", true))
+			}
+			return obs
+		}})
+}
+
+// PANICMARK.mark-last — C06 (the host-panic carve-out): the recovered panic is
+// marked by storing the Go stack snapshot into its CallStack.  IsInternalPanic
+// reads that mark.  Whatever else the recover handler does to the condition, it
+// must not replace the call stack afterwards: SetCallStack copies another
+// stack — with no snapshot — over the marked one, and the condition, still NAMED
+// internal-panic, is swallowed by ignore-errors and matched by `condition`.
+func init() {
+	register(&Rule{ID: "PANICMARK.mark-last", Floor: 1,
+		Doc: "in the function (or deferred literal) that stores the Go stack snapshot into CallStack.GoStack — the mark IsInternalPanic reads — nothing that runs after the store can take the mark away again: no call of LVal.SetCallStack and no assignment to the variable holding the marked condition is reachable from the store; a recovered host panic keeps its mark whatever the panic value was (a string, a runtime error, a lisp error value that host code re-panicked with)",
+		Run: func(c *Ctx) []Obligation {
+			const rid = "PANICMARK.mark-last"
+			gs := c.LookupField("lisp.CallStack.GoStack")
+			setCS := c.LookupMethod("lisp.LVal.SetCallStack")
+			if gs == nil {
+				return []Obligation{anchorMissing(rid, "CallStack.GoStack")}
+			}
+			var obs []Obligation
+			for _, u := range c.Funcs(func(p string) bool { return rel(p) == "lisp" }) {
+				if u.Decl == nil || u.Decl.Body == nil {
+					continue
+				}
+				info := u.Pkg.TypesInfo
+				for _, bu := range bodiesOf(u.Decl) {
+					fc := c.cfgOf(u, bu.Lit)
+					ord := &ordinal{}
+					for _, b := range fc.G.Blocks {
+						if !fc.Live(b) {
+							continue
+						}
+						for i, n := range b.Nodes {
+							as, ok := n.(*ast.AssignStmt)
+							if !ok || len(as.Lhs) != 1 || FieldOfSelector(info, as.Lhs[0]) != gs {
+								continue
+							}
+							if innermostBody(u.Decl, as).Lit != bu.Lit {
+								continue
+							}
+							construct := ord.next("store .GoStack")
+							// the marked condition: X in `stack := X.CallStack()` for the stack written to
+							var marked types.Object
+							if se, ok := ast.Unparen(as.Lhs[0]).(*ast.SelectorExpr); ok {
+								if so := identObj(info, se.X); so != nil {
+									if dc, _, _ := definingCall(info, bu.Body, so); dc != nil {
+										if fs, ok := ast.Unparen(dc.Fun).(*ast.SelectorExpr); ok {
+											marked = identObj(info, fs.X)
+										}
+									}
+								}
+							}
+							bad := ""
+							judge := func(m ast.Node) {
+								for _, ce := range callsIn(m, false) {
+									if setCS != nil && originOf(Callee(info, ce)) == setCS {
+										bad = "calls SetCallStack (`" + types.ExprString(ce) + "`)"
+									}
+								}
+								if a2, ok := m.(*ast.AssignStmt); ok && marked != nil {
+									for _, l := range a2.Lhs {
+										if identObj(info, l) == marked {
+											bad = "assigns `" + marked.Name() + "` again"
+										}
+									}
+								}
+							}
+							for _, m := range b.Nodes[i+1:] {
+								judge(m)
+							}
+							seen := map[*cfg.Block]bool{}
+							var walk func(x *cfg.Block)
+							walk = func(x *cfg.Block) {
+								if seen[x] {
+									return
+								}
+								seen[x] = true
+								for _, m := range x.Nodes {
+									judge(m)
+								}
+								for _, sx := range x.Succs {
+									walk(sx)
+								}
+							}
+							for _, sx := range b.Succs {
+								walk(sx)
+							}
+							if bad == "" {
+								obs = append(obs, mkOb(c, rid, u, construct, as, Proved, "nothing reachable after the mark replaces the condition's call stack", true))
+							} else {
+								obs = append(obs, mkOb(c, rid, u, construct, as, Violated, "after the Go stack snapshot was stored, the handler "+bad+": the marked call stack is replaced by one without a snapshot, IsInternalPanic answers false, and the host panic is swallowed by ignore-errors / a `condition` handler although it is still named internal-panic", true))
+							}
+						}
+					}
+				}
+			}
+			return obs
+		}})
+}
+
+// ALIAS.compact-in-place — C07 (quasiquote builds its template; the splice pass)
+// and C11 (no operation writes cells it is still reading): `out := xs[:0]` reuses
+// xs's backing array.  Filling out while ranging over xs is the classic in-place
+// filter and is sound only while each turn appends AT MOST ONE element — the write
+// index can then never overtake the read index.  A turn that appends a whole
+// sequence (a spliced list) overwrites cells the loop has not read yet, however
+// the total length compares.
+func init() {
+	register(&Rule{ID: "ALIAS.compact-in-place", Floor: 0,
+		Doc: "wherever a slice of lisp values is re-sliced to length zero over its own backing (`out := xs[:0]`) and then filled inside a loop that ranges over the same slice xs, every append to it inside that loop adds exactly one element (`out = append(out, x)`): no spread append (`append(out, ys...)`) and no multi-element append, which can overwrite cells of xs the loop has not read yet — a comparison of total lengths made in front of the loop does not bound the write index turn by turn (expected count zero; seeded C07-r7m2 is the positive example)",
+		Run: func(c *Ctx) []Obligation {
+			const rid = "ALIAS.compact-in-place"
+			var obs []Obligation
+			for _, u := range c.Funcs(nil) {
+				if u.Decl == nil || u.Decl.Body == nil {
+					continue
+				}
+				info := u.Pkg.TypesInfo
+				// out -> xs for every `out := xs[:0]` / `out = xs[:0]` over []*LVal
+				alias := map[types.Object]types.Object{}
+				ast.Inspect(u.Decl.Body, func(n ast.Node) bool {
+					as, ok := n.(*ast.AssignStmt)
+					if !ok || len(as.Lhs) != len(as.Rhs) {
+						return true
+					}
+					for i, r := range as.Rhs {
+						se, ok := ast.Unparen(r).(*ast.SliceExpr)
+						if !ok || se.Low != nil || se.High == nil {
+							continue
+						}
+						if k, isC := intConst(info, se.High); !isC || k != 0 {
+							continue
+						}
+						tv, ok := info.Types[se.X]
+						if !ok {
+							continue
+						}
+						sl, ok := tv.Type.Underlying().(*types.Slice)
+						if !ok || !isLValPtr(c, sl.Elem()) {
+							continue
+						}
+						out, src := identObj(info, as.Lhs[i]), identObj(info, se.X)
+						if out != nil && src != nil && out != src {
+							alias[out] = src
+						}
+					}
+					return true
+				})
+				if len(alias) == 0 {
+					continue
+				}
+				ord := &ordinal{}
+				ast.Inspect(u.Decl.Body, func(n ast.Node) bool {
+					rs, ok := n.(*ast.RangeStmt)
+					if !ok {
+						return true
+					}
+					src := identObj(info, rs.X)
+					if src == nil {
+						return true
+					}
+					ast.Inspect(rs.Body, func(m ast.Node) bool {
+						as, ok := m.(*ast.AssignStmt)
+						if !ok || len(as.Lhs) != len(as.Rhs) {
+							return true
+						}
+						for i, l := range as.Lhs {
+							out := identObj(info, l)
+							if out == nil || alias[out] != src {
+								continue
+							}
+							ce, ok := ast.Unparen(as.Rhs[i]).(*ast.CallExpr)
+							if !ok {
+								continue
+							}
+							if id, ok := ast.Unparen(ce.Fun).(*ast.Ident); !ok || id.Name != "append" || len(ce.Args) == 0 || identObj(info, ce.Args[0]) != out {
+								continue
+							}
+							construct := ord.next("append to " + exprShape(info, ce.Args[0]) + " over its own backing")
+							if ce.Ellipsis.IsValid() || len(ce.Args) != 2 {
+								obs = append(obs, mkOb(c, rid, u, construct, as, Violated, "`"+types.ExprString(as.Rhs[i])+"` appends more than one element per turn to `"+out.Name()+"`, which shares its backing array with `"+src.Name()+"`, inside the loop that is still reading `"+src.Name()+"`: a spliced sequence of two or more elements overwrites cells the loop has not reached — `(quasiquote ((unquote-splicing '(a b)) (unquote-splicing '())))` gives (a b b)", true))
+							} else {
+								obs = append(obs, mkOb(c, rid, u, construct, as, Proved, "one element per turn: the write index cannot overtake the read index", true))
+							}
+						}
+						return true
+					})
+					return true
+				})
+			}
+			return obs
+		}})
+}
